@@ -110,6 +110,9 @@ PROPS["C04"] = {
         T("SV.aePrevOk_true", "what a passed previous-entry check means: PrevLogEntry = 0, or the cached last entry / the snapshot boundary with the announced term, or inside the snapshot, or stored with the announced term"),
         T("SV.aePlan_steps_refuse", "whatever write of AppendEntries fails, the answer is not success"),
         T("SV.ae_stale_term_inert", "the stepped model's AppendEntries with an older term: no write, no state change, answer false with the server's term"),
+        T("SV.ae_success_log", "the store after a successful AppendEntries (well-formed log, entries with ascending indexes, every failure and crash ordinal): every sent entry above the snapshot is at its index with the sent term (the sent entry itself or the identical-term entry already held), every index below all sent entries holds exactly what it held, the log stays well-formed"),
+        T("SV.applyAll_sorted", "the log's representation invariant (strictly ascending indexes, i.e. the list is a map) survives every durable write, hence every crash image"),
+        T("SV.scanEntries_spec", "the entry scan splits the request into a held/covered prefix and the suffix to store, and reports a conflict exactly at the first entry to store"),
     ],
     "engines": [handlers("C04"), universe("C04")],
     "assumptions": [SV_NOTE],
